@@ -851,7 +851,60 @@ def run_write_first(ctx, i, rng):
               lambda: dict(case=desc, got=np.asarray(y).tolist(), want=h.tolist()))
 
 
+def run_shared_repeated_parent(ctx, i, rng):
+  """An outside-built module shared by two wrappers (W(G)(x) + W(G)(x)) inside a compact parent that is itself called more than once:
+  the variable tree does not depend on how often the parent is called - G's variables exist once, under the first wrapper.
+  Own mechanisms - see known finding C02-sharing-lost-on-repeated-parent-call."""
+  import jax
+  import jax.numpy as jnp
+  import flax.linen as nn
+  calls = 1 + i % 3
+  order = ['construct_call_construct_call', 'construct_both_then_call'][(i // 3) % 2]
+  desc = dict(parent_calls=calls, order=order)
+  with ctx.case('shared_repeated_parent', i, desc, nontrivial=calls >= 2):
+    G = nn.Dense(3)
+
+    class W(nn.Module):
+      inner: nn.Module
+
+      @nn.compact
+      def __call__(self, x):
+        return self.inner(x)
+
+    class Top(nn.Module):
+      @nn.compact
+      def __call__(self, x):
+        if order == 'construct_call_construct_call':
+          return W(G)(x) + W(G)(x)
+        a, b = W(G), W(G)
+        return a(x) + b(x)
+
+    class Outer(nn.Module):
+      @nn.compact
+      def __call__(self, x):
+        t = Top()
+        for _ in range(calls):
+          x = t(x)
+        return x
+
+    x = jnp.ones((2, 3))
+    v1 = Outer().init(jax.random.key(0), x)
+    ctx.op('init(parent with a shared outside module, called %d times)' % calls)
+    names = sorted(jax.tree_util.tree_map(lambda a: None, v1['params']['Top_0']).keys()) if 'Top_0' in v1['params'] else sorted(v1['params'])
+    mech = 'tree:shared_module_duplicated_on_repeated_parent_call' + ('' if order == 'construct_call_construct_call' else ':constructed_first')
+    ctx.check(names == ['W_0'], mech, lambda: dict(case=desc, children_of_Top=names))
+    # the variables of one call fit every number of calls
+    v_single = jax.tree_util.tree_map(lambda a: a, Outer().init(jax.random.key(0), x)) if calls == 1 else None
+    if calls >= 2 and names == ['W_0']:
+      try:
+        Outer().apply(v1, x)
+      except Exception as e:  # noqa: BLE001
+        ctx.check(False, mech, dict(case=desc, apply_error=repr(e)[:200]))
+
+
 def run(ctx):
+  for i in ctx.indices(6, 'shared_repeated_parent'):
+    run_shared_repeated_parent(ctx, i, ctx.rng('shared_repeated_parent', i))
   for i in ctx.indices(36 if ctx.tier == 'quick' else 72, 'write_first'):
     run_write_first(ctx, i, ctx.rng('write_first', i))
   for i in ctx.indices(12 if ctx.tier == 'quick' else 90, 'share_scope'):
